@@ -109,6 +109,11 @@ def entry_points(max_n, fsets):
         b.require(len(lines) == 1 and lines[0].startswith(f + " (") and b.p("R/clip.mov") in lines[0], "hash-output-shape", str(r.out))
         got = b.digest_after(lines[0], " = ")
         b.require(truth(got == b.H(f, "R/clip.mov")), "hash-command-digest", f)
+        # the digest verify computes is that of the bytes the file has NOW (whatever size was recorded)
+        b.alter("R/clip.mov", 10, n + 5)
+        r = b.run("verify", root="R")
+        b.require(r.exit == 11, "verify-sees-current-bytes", "file recorded with %s bytes, now 5 bytes longer with other content: verify exits %s"
+                  % ("n" if isinstance(n, SymInt) else n, r.exit))
     return fn
 
 
